@@ -176,7 +176,7 @@ class PatCtx:
         return self.b.get(meta, default)
 
 
-def make_resolver(fn: ast.AST):
+def make_resolver(fn: ast.AST, check_stability: bool = True):
     """resolver(name, at) for single-definition locals of `fn` whose defining expression means the same at the use:
     the local has exactly one definition in the function (a plain `name = expr`), that definition is the only one reaching
     `at`, and every name read by `expr` has the same reaching definitions at the definition and at `at`."""
@@ -212,12 +212,13 @@ def make_resolver(fn: ast.AST):
         v, ds = rd.value_of(defs[0]), rd.def_stmt(defs[0])
         if v is None or ds is None:
             return None
-        for x in ast.walk(v):
-            if isinstance(x, ast.Name) and isinstance(x.ctx, ast.Load):
-                a = {(d.stmt_id, d.kind) for d in rd.reaching(ds, x.id)}
-                c = {(d.stmt_id, d.kind) for d in rd.reaching(at, x.id)}
-                if a != c:
-                    return None
+        if check_stability:
+            for x in ast.walk(v):
+                if isinstance(x, ast.Name) and isinstance(x.ctx, ast.Load):
+                    a = {(d.stmt_id, d.kind) for d in rd.reaching(ds, x.id)}
+                    c = {(d.stmt_id, d.kind) for d in rd.reaching(at, x.id)}
+                    if a != c:
+                        return None
         return v, ds
 
     return resolver, stmt_of
@@ -227,8 +228,10 @@ class Expander:
     """Rewrites an expression with every single-definition local replaced by its defining expression (transitively), so that
     `c = sub.coefficients; k = c.model_key; f(k)` reads `f(sub.coefficients.model_key)` whatever the locals are called."""
 
-    def __init__(self, fn: ast.AST):
-        self.resolver, self.stmt_of = make_resolver(fn)
+    def __init__(self, fn: ast.AST, through_updates: bool = False):
+        """through_updates: also look through `x = f(x)` chains (names inside a definition are expanded in the definition's own
+        context, so the result describes the dataflow; names that stay may denote an older value than the same name at the use)."""
+        self.resolver, self.stmt_of = make_resolver(fn, check_stability=not through_updates)
 
     def expand(self, e: ast.AST, at: Optional[ast.AST] = None, depth: int = 6) -> ast.AST:
         import copy
